@@ -208,7 +208,7 @@ package gocvss30
 
 //@ func (CVSS30).EnvironmentalScore(cvss30)
 //@   requires[wf] (wf30 cvss30)
-//@   ensures[spec] (fp.eq result (tenth (envFrom30 (envInner30K cvss30) cvss30)))
+//@   ensures[spec] (fp.eq result (tenth (envFromZ30 (envZero30 cvss30) (envInner30K cvss30) cvss30)))
 //@   ensures[one_decimal_in_scale] (isTenthIn result 0 100)
 //@   ensures[rating_accepts] (>= (ratingClass result) 0)
 //@   ensures[no_allocation] (= allocs (old allocs))
